@@ -290,6 +290,47 @@ def peer_lengths_run(role, total, obs):
     return problems
 
 
+def peer_reuse_run(role, pop_between, obs):
+    ''' The peer uses a transfer id twice (a peer bug or a restart): whatever the endpoint makes of the second transfer, its own
+    announcements and its receive queue stay consistent: ids announced and not yet popped == ids listed, each pop returns what was
+    announced under that id, exactly once. '''
+    from vf.props import c17
+    from vf.oracles import tcpcl_wire as tw
+    peer = c17.Peer(role, 'idle')
+    problems = []
+    datas = [b'first-bundle', b'second-bundle-longer']
+    popped = []
+    for idx, data in enumerate(datas):
+        peer.write(tw.encode(dict(type='XFER_SEGMENT', flags=tw.FLAG_START | tw.FLAG_END, transfer_id=301, ext=[tw.transfer_length_ext(len(data))], data=data)))
+        peer.settle()
+        if idx == 0 and pop_between and not peer.closed():
+            popped.append(bytes(peer.end.call('recv_bundle_pop_data', '301')))
+    obs['runs'] += 1
+    errs = peer.sim.world.callback_errors
+    if errs:
+        return [('raised', 'callback %s raised %s: %s' % (errs[0].source, errs[0].exc_type, str(errs[0].exc)[:80]))]
+    for viol in peer.sim.hist.sig_violations:
+        problems.append(('type', '%s %s.%s does not marshal: %s' % (viol.kind, viol.iface, viol.member, viol.msg[:60])))
+    announced = [str(ev['args'][0]) for ev in peer.sim.hist.signals('recv_bundle_finished')]
+    obs['signals_checked'] += len(announced)
+    if peer.closed():
+        return problems
+    queue = [str(x) for x in peer.end.call('recv_bundle_get_queue')]
+    want = list(announced)
+    for _ in popped:
+        want.remove('301')
+    if sorted(queue) != sorted(want):
+        problems.append(('recv-queue', 'the peer used transfer id 301 twice%s: announced as finished %s, popped %d, but the receive queue lists %s' % (
+            ' (popped in between)' if pop_between else '', announced, len(popped), queue)))
+        return problems
+    for tid in queue:
+        popped.append(bytes(peer.end.call('recv_bundle_pop_data', tid)))
+    obs['pops_checked'] += len(popped)
+    if sorted(popped) != sorted(datas[:len(popped)]) and sorted(popped) != sorted(datas[-len(popped):]):
+        problems.append(('pop', 'pops returned %s for transfers %s' % ([p[:14] for p in popped], [d[:14] for d in datas])))
+    return problems
+
+
 # ---------------------------------------------------------------- two real tcpcl agents
 
 def agent_run(params, obs):
@@ -513,6 +554,9 @@ def cases(tier, seed):
     for role in ('passive', 'active'):
         for total in (None, 0, 6, 2 ** 31 - 1, 2 ** 31, 2 ** 32 + 5, 2 ** 63, 2 ** 64 - 1):
             out.append(dict(id='peerlen-%s-%s' % (role, total), kind='peerlen', role=role, total=total))
+    for role in ('passive', 'active'):
+        for pop_between in (False, True):
+            out.append(dict(id='peer-reuse-%s-%s' % (role, pop_between), kind='peer-reuse', role=role, pop_between=pop_between))
     idx = 0
     for contacts in (0, 1, 2, 3):
         for who in ('A', 'B'):
@@ -606,6 +650,9 @@ def run_case(case):
     elif case['kind'] == 'refuse':
         note(refusal_run(case['role'], case['variant'], obs), 'refuse', dict(role=case['role'], variant=case['variant']),
              'refuse|%s|%s' % (case['role'], case['variant']))
+    elif case['kind'] == 'peer-reuse':
+        note(peer_reuse_run(case['role'], case['pop_between'], obs), 'peer-reuse', dict(role=case['role'], pop_between=case['pop_between']),
+             'peer-reuse|%s|%s' % (case['role'], case['pop_between']))
     elif case['kind'] == 'peerlen':
         note(peer_lengths_run(case['role'], case['total'], obs), 'peerlen', dict(role=case['role'], total=case['total']),
              'peerlen|%s|%s' % (case['role'], case['total']))
